@@ -2,6 +2,7 @@ package samlsim
 
 import (
 	"bytes"
+	"context"
 	"encoding/base64"
 	"fmt"
 	"io"
@@ -10,7 +11,9 @@ import (
 	"net/url"
 	"regexp"
 	"strings"
+	"sync"
 	"testing"
+	"testing/synctest"
 	"time"
 
 	"github.com/beevik/etree"
@@ -28,6 +31,16 @@ import (
 type rpKnobs struct {
 	AllowIDPInitiated bool `json:"allow_idp_initiated"`
 	CustomValidator   bool `json:"custom_request_id_validator"`
+	// the application installs its own *audience* validator (it answers to a second entity ID as well): says nothing about requests
+	CustomAudience bool `json:"custom_audience_validator,omitempty"`
+}
+
+// rpOverlap is a second delivery on the artifact entry point that arrives while the resolution of the first is still at the
+// resolver: another caller (another browser, another tab), with its own declared outstanding set.
+type rpOverlap struct {
+	Resp        int    `json:"resp"`                            // the response its artifact stands for (the same artifact when equal to the first delivery's)
+	Set         string `json:"outstanding"`                     // what the second caller declares outstanding
+	SecondFirst bool   `json:"second_answered_first,omitempty"` // the resolver answers the later resolution first
 }
 
 type rpStep struct {
@@ -41,6 +54,12 @@ type rpStep struct {
 	Pretty   bool     `json:"pretty_printed,omitempty"`
 	NoDest   bool     `json:"no_destination,omitempty"` // unsigned Response without a Destination attribute (legal: Destination is optional)
 	Methods  []string `json:"conf_methods,omitempty"`   // per confirmation: "" = bearer, else the method URN
+	// answer, per confirmation: "" = addressed to this SP's endpoint and fresh; "other-endpoint" = its Recipient is another endpoint of
+	// the deployment; "lapsed" = its NotOnOrAfter passed long ago. Such a confirmation still is a confirmation of the assertion.
+	ConfAddr []string `json:"conf_addressing,omitempty"`
+	// answer: "" = the assertion names this SP as audience; "second" = it names the second entity ID the application's own audience
+	// validator answers to
+	Audience string `json:"audience,omitempty"`
 	// answer: unused namespace declarations called InResponseTo are added in flight to the Response and to every confirmation's data,
 	// reading this flow's request ID ("match") or somebody else's ("other"): they say nothing about what the message answers
 	NSIRT string `json:"unused_ns_named_in_response_to,omitempty"`
@@ -56,14 +75,19 @@ type rpStep struct {
 	// deliver (xml | post): the serialiser on the way spells the first character of every InResponseTo value as a numeric character
 	// reference (&#105;d-... for id-...): the same attribute value, the same signed content
 	Respell bool `json:"irt_spelt_with_character_reference,omitempty"`
+	// deliver (artifact): a second delivery overlaps this one
+	Overlap *rpOverlap `json:"overlapping_delivery,omitempty"`
 }
+
+// c04SecondEntity is the second entity ID an application with its own audience validator answers to.
+const c04SecondEntity = "https://legacy.sp.example.com/saml/metadata"
 
 var rpSets = []string{"live", "live", "live", "empty", "only-this", "only-other", "empty-string", "empty-string+live", "near", "all-ever",
 	// every outstanding ID listed twice, in two orders (an application that appends on every redirect and never de-duplicates)
 	"live-repeated", "live-repeated"}
 
 func genReplay(g *Rng, tier string) *Plan {
-	k := rpKnobs{AllowIDPInitiated: g.Bool(0.12), CustomValidator: g.Bool(0.1)}
+	k := rpKnobs{AllowIDPInitiated: g.Bool(0.12), CustomValidator: g.Bool(0.1), CustomAudience: g.Bool(0.15)}
 	p := &Plan{Knobs: mustJSON(k)}
 	var steps []rpStep
 	nflows, nresps := 0, 0
@@ -88,6 +112,16 @@ func genReplay(g *Rng, tier string) *Plan {
 				}
 				st.ConfIRTs = append(st.ConfIRTs, c)
 				st.Methods = append(st.Methods, []string{"", "urn:oasis:names:tc:SAML:2.0:cm:holder-of-key", "urn:oasis:names:tc:SAML:2.0:cm:sender-vouches", "urn:example:cm:none"}[g.PickW(14, 2, 2, 1)])
+				// a confirmation meant for somebody else (another endpoint, an earlier delivery) is where one would expect somebody
+				// else's request ID: drawn more often there
+				if c != "match" {
+					st.ConfAddr = append(st.ConfAddr, []string{"", "other-endpoint", "lapsed"}[g.PickW(2, 1, 1)])
+				} else {
+					st.ConfAddr = append(st.ConfAddr, []string{"", "other-endpoint", "lapsed"}[g.PickW(18, 1, 1)])
+				}
+			}
+			if k.CustomAudience && g.Bool(0.3) {
+				st.Audience = "second"
 			}
 			if st.Layout == 1 && g.Bool(0.4) {
 				st.NoDest = true
@@ -105,6 +139,13 @@ func genReplay(g *Rng, tier string) *Plan {
 			st := rpStep{Kind: "deliver", Resp: g.Intn(nresps), Entry: Pick(g, "xml", "xml", "post", "artifact", "artifact"), Set: Pick(g, rpSets...), ArtIRT: "this", Respell: g.Bool(0.2)}
 			if st.Entry == "artifact" && g.Bool(0.4) {
 				st.ArtIRT = Pick(g, "previous", "other", "empty", "near", "case")
+			}
+			if st.Entry == "artifact" && g.Bool(0.35) {
+				o := &rpOverlap{Resp: st.Resp, Set: Pick(g, rpSets...), SecondFirst: g.Bool(0.4)}
+				if g.Bool(0.3) {
+					o.Resp = g.Intn(nresps) // another artifact (or, by chance, the same)
+				}
+				st.Overlap = o
 			}
 			steps = append(steps, st)
 		default:
@@ -126,20 +167,25 @@ type rpTransport struct {
 	prevID   string
 	seenID   string
 	lastBody string
+	// gated operation (overlapping deliveries): every resolution that arrives is held until the simulator lets the resolver
+	// answer it; the resolver answers with what the artifact named in the request stands for
+	mu       sync.Mutex
+	gated    bool
+	arrivals []*rpArrival
+	resolve  func(artifact, resolveID string) *etree.Element
 }
 
-func (t *rpTransport) RoundTrip(r *http.Request) (*http.Response, error) {
-	b, _ := io.ReadAll(r.Body)
-	t.lastBody = string(b)
-	doc := etree.NewDocument()
-	_ = doc.ReadFromBytes(b)
-	id := ""
-	if ar := doc.FindElement("//ArtifactResolve"); ar != nil {
-		id = ar.SelectAttrValue("ID", "")
-	}
-	t.seenID = id
+// rpArrival is one ArtifactResolve held at the resolver.
+type rpArrival struct {
+	id, artifact string
+	mode         string // how the resolver fills the ArtifactResponse's InResponseTo (set before release)
+	release      chan struct{}
+}
+
+// irtFor is the InResponseTo the resolver writes on the ArtifactResponse answering the ArtifactResolve id.
+func (t *rpTransport) irtFor(mode, id string) string {
 	irt := id
-	switch t.mode {
+	switch mode {
 	case "previous":
 		irt = t.prevID
 		if irt == "" {
@@ -157,6 +203,41 @@ func (t *rpTransport) RoundTrip(r *http.Request) (*http.Response, error) {
 			irt = "ID" + id[2:]
 		}
 	}
+	return irt
+}
+
+func (t *rpTransport) RoundTrip(r *http.Request) (*http.Response, error) {
+	b, _ := io.ReadAll(r.Body)
+	doc := etree.NewDocument()
+	_ = doc.ReadFromBytes(b)
+	id, artifact := "", ""
+	if ar := doc.FindElement("//ArtifactResolve"); ar != nil {
+		id = ar.SelectAttrValue("ID", "")
+		if a := ar.FindElement("./Artifact"); a != nil {
+			artifact = a.Text()
+		}
+	}
+	t.mu.Lock()
+	gated := t.gated
+	var arr *rpArrival
+	if gated {
+		arr = &rpArrival{id: id, artifact: artifact, mode: "this", release: make(chan struct{})}
+		t.arrivals = append(t.arrivals, arr)
+	} else {
+		t.lastBody = string(b)
+		t.seenID = id
+	}
+	t.mu.Unlock()
+	if gated {
+		select {
+		case <-arr.release:
+		case <-r.Context().Done():
+			return nil, r.Context().Err()
+		}
+		body := wrapArtifactResponse(t.resolve(arr.artifact, id), "id-art", t.irtFor(arr.mode, id), idpEntity, saml.StatusSuccess, time.Now(), nil)
+		return &http.Response{StatusCode: 200, Status: "200 OK", Body: io.NopCloser(bytes.NewReader(body)), Header: http.Header{}, Request: r}, nil
+	}
+	irt := t.irtFor(t.mode, id)
 	inner := t.respEl
 	if t.lazy != nil {
 		inner = t.lazy(id)
@@ -199,6 +280,19 @@ func execReplay(t *testing.T, p *Plan) *Result {
 			return fmt.Errorf("custom validator says no")
 		}
 	}
+	if k.CustomAudience {
+		// the application's own audience rule: it answers to its entity ID and to a second one. Requests are none of its business.
+		spv.ValidateAudienceRestriction = func(assertion *saml.Assertion) error {
+			if assertion.Conditions != nil {
+				for _, ar := range assertion.Conditions.AudienceRestrictions {
+					if ar.Audience.Value == spBase+"/saml/metadata" || ar.Audience.Value == c04SecondEntity {
+						return nil
+					}
+				}
+			}
+			return fmt.Errorf("custom audience validator says no")
+		}
+	}
 	tr := &rpTransport{}
 	spv.HTTPClient = &http.Client{Transport: tr}
 
@@ -215,6 +309,8 @@ func execReplay(t *testing.T, p *Plan) *Result {
 		at       time.Time
 		n        int
 		noData   bool // some confirmation has no SubjectConfirmationData element
+		offAddr  bool // some confirmation is addressed to another endpoint or has lapsed
+		audience string
 	}
 	var flows []*flow
 	var resps []*resp
@@ -295,6 +391,17 @@ func execReplay(t *testing.T, p *Plan) *Result {
 					m = st.Methods[ci]
 				}
 				cs := ConfSpec{Method: m, NotOnOrAfter: i64(3_600_000), Recipient: spBase + "/saml/acs", InResponseTo: v}
+				if ci < len(st.ConfAddr) && c != "nodata" {
+					switch st.ConfAddr[ci] {
+					case "other-endpoint":
+						cs.Recipient = spBase + "/other/acs"
+						r.offAddr = true
+					case "lapsed":
+						// long past, whatever tolerance is configured
+						cs.NotOnOrAfter = i64(-saml.MaxClockSkew.Milliseconds() - 86_400_000)
+						r.offAddr = true
+					}
+				}
 				if c == "nodata" {
 					// the confirmation has no SubjectConfirmationData element at all (schema-legal): its InResponseTo is absent, like
 					// everything else it could have said
@@ -302,6 +409,14 @@ func execReplay(t *testing.T, p *Plan) *Result {
 					r.noData = true
 				}
 				a.Confs = append(a.Confs, cs)
+			}
+			if st.Audience == "second" {
+				a.Audiences = []string{c04SecondEntity}
+				r.audience = st.Audience
+				res.probe("audience-is-the-second-entity-id")
+			}
+			if r.offAddr {
+				res.probe("confirmation-for-another-endpoint-or-lapsed")
 			}
 			if st.Pretty {
 				spec.Pretty, a.Pretty = true, true
@@ -338,134 +453,317 @@ func execReplay(t *testing.T, p *Plan) *Result {
 			r.n++
 			advance(20 * time.Millisecond)
 			// ---- the outstanding set the caller declares
-			var set []string
-			switch st.Set {
-			case "live":
-				for _, fl := range flows {
-					if !fl.retired {
+			mkSet := func(name string, r *resp) []string {
+				f := flows[r.flow]
+				var set []string
+				switch name {
+				case "live":
+					for _, fl := range flows {
+						if !fl.retired {
+							set = append(set, fl.id)
+						}
+					}
+				case "empty":
+				case "only-this":
+					set = []string{f.id}
+				case "only-other":
+					for i, fl := range flows {
+						if i != r.flow {
+							set = append(set, fl.id)
+						}
+					}
+				case "empty-string":
+					set = []string{""}
+				case "empty-string+live":
+					set = []string{""}
+					for _, fl := range flows {
+						if !fl.retired {
+							set = append(set, fl.id)
+						}
+					}
+				case "near":
+					set = []string{f.id + "0", f.id[:len(f.id)-1], " " + f.id}
+				case "all-ever":
+					for _, fl := range flows {
 						set = append(set, fl.id)
 					}
-				}
-			case "empty":
-			case "only-this":
-				set = []string{f.id}
-			case "only-other":
-				for i, fl := range flows {
-					if i != r.flow {
-						set = append(set, fl.id)
+				case "live-repeated":
+					for _, fl := range flows {
+						if !fl.retired {
+							set = append(set, fl.id)
+						}
+					}
+					for i := len(set) - 1; i >= 0; i-- {
+						set = append(set, set[i])
 					}
 				}
-			case "empty-string":
-				set = []string{""}
-			case "empty-string+live":
-				set = []string{""}
-				for _, fl := range flows {
-					if !fl.retired {
-						set = append(set, fl.id)
-					}
-				}
-			case "near":
-				set = []string{f.id + "0", f.id[:len(f.id)-1], " " + f.id}
-			case "all-ever":
-				for _, fl := range flows {
-					set = append(set, fl.id)
-				}
-			case "live-repeated":
-				for _, fl := range flows {
-					if !fl.retired {
-						set = append(set, fl.id)
-					}
-				}
-				for i := len(set) - 1; i >= 0; i-- {
-					set = append(set, set[i])
-				}
+				return set
 			}
+			// ---- oracle from the statement: what must happen to response r delivered to a caller that declares set
+			type verdict struct {
+				expect                string
+				respOK, confOK, artOK bool
+				dontcare              string
+			}
+			judge := func(r *resp, set []string, artOK bool) verdict {
+				in := func(id string) bool {
+					for _, s := range set { // the oracle judges by what the application MEANT to declare
+						if s == id {
+							return true
+						}
+					}
+					return false
+				}
+				v := verdict{expect: "ACCEPT", artOK: artOK}
+				v.respOK = in(r.irt) && !strings.HasPrefix(r.irt, "\x00")
+				v.confOK = true
+				for _, c := range r.confIRTs { // every confirmation of the assertion, whomever it is addressed to and whenever it lapses
+					if !in(c) || strings.HasPrefix(c, "\x00") {
+						v.confOK = false
+					}
+				}
+				switch {
+				case !artOK:
+					v.expect = "REJECT" // must answer exactly the ArtifactResolve just issued, whatever else is configured
+				case k.CustomValidator:
+					// response level is the application's business; the statement imposes nothing
+					if validatorOK(saml.Response{InResponseTo: r.irt}, set) && (v.confOK || k.AllowIDPInitiated) {
+						v.expect = "ACCEPT"
+					} else {
+						v.expect, v.dontcare = "DONT_CARE", "custom-validator"
+					}
+				case k.AllowIDPInitiated:
+					v.expect = "ACCEPT" // the statement imposes nothing on InResponseTo then; everything else is valid
+				case !v.respOK || !v.confOK:
+					v.expect = "REJECT"
+				}
+				if v.expect == "ACCEPT" {
+					// whether the response is *valid* in the respects this property does not speak about is other properties' business
+					switch {
+					case r.noData:
+						v.expect, v.dontcare = "DONT_CARE", "confirmation-without-data"
+					case r.offAddr:
+						v.expect, v.dontcare = "DONT_CARE", "confirmation-for-another-endpoint-or-lapsed"
+					case r.audience != "" && !k.CustomAudience:
+						v.expect, v.dontcare = "DONT_CARE", "audience-not-ours"
+					}
+				}
+				return v
+			}
+			// settle compares one delivery's outcome with its verdict; true = the run ends here
+			settle := func(label string, r *resp, setName string, set []string, artIRT string, v verdict, as *saml.Assertion, err error, pan any) bool {
+				if pan != nil {
+					res.Excluded = "panic (reported under C09)"
+					return true
+				}
+				observed := "REJECT"
+				if as != nil && err == nil {
+					observed = "ACCEPT"
+				}
+				switch v.expect {
+				case "DONT_CARE":
+					res.dontcare(v.dontcare)
+				case "ACCEPT":
+					if as == nil {
+						res.violate(si, "valid-answer-rejected", "C04/valid-answer-rejected/"+label, v.expect, observed, privErr(err))
+						return true
+					}
+				case "REJECT":
+					if as != nil {
+						why := "response-irt"
+						switch {
+						case !v.artOK:
+							why = "artifact-correlation/" + artIRT
+						case v.respOK:
+							why = "confirmation-irt"
+						}
+						if label == "overlapping" {
+							why += "/overlapping-delivery"
+						}
+						res.violate(si, "accepted-not-outstanding", "C04/accepted/"+why, v.expect, observed, fmt.Sprintf("outstanding set %s: resp irt %q conf irts %q set %q", setName, r.irt, r.confIRTs, set))
+						return true
+					}
+				}
+				return false
+			}
+			set := mkSet(st.Set, r)
 			// what the library is handed: for the "live" set the application's own long-lived slice (not a copy)
 			passed := append([]string(nil), set...)
 			if st.Set == "live" {
 				passed = appLive
 			}
 			in := func(id string) bool {
-				for _, s := range set { // the oracle judges by what the application MEANT to declare
+				for _, s := range set {
 					if s == id {
 						return true
 					}
 				}
 				return false
 			}
-			irt, confIRTs := r.irt, r.confIRTs
-			// ---- oracle from the statement
-			respOK := in(irt) && !strings.HasPrefix(irt, "\x00")
-			confOK := true
-			for _, c := range confIRTs {
-				if !in(c) || strings.HasPrefix(c, "\x00") {
-					confOK = false
-				}
-			}
 			artOK := st.Entry != "artifact" || st.ArtIRT == "this"
-			expect := "ACCEPT"
-			switch {
-			case !artOK:
-				expect = "REJECT" // must answer exactly the ArtifactResolve just issued, whatever else is configured
-			case k.CustomValidator:
-				// response level is the application's business; the statement imposes nothing
-				if validatorOK(saml.Response{InResponseTo: r.irt}, set) && (confOK || k.AllowIDPInitiated) {
-					expect = "ACCEPT"
-				} else {
-					expect = "DONT_CARE"
-				}
-			case k.AllowIDPInitiated:
-				expect = "ACCEPT" // the statement imposes nothing on InResponseTo then; everything else is valid
-			case !respOK || !confOK:
-				expect = "REJECT"
-			}
+			v := judge(r, set, artOK)
+			expect, respOK, confOK := v.expect, v.respOK, v.confOK
 			if r.noData {
 				res.probe("confirmation-without-data")
-				if expect == "ACCEPT" {
-					expect = "DONT_CARE" // whether a confirmation that says nothing is acceptable at all is not this property's business
+			}
+			if k.CustomAudience {
+				res.probe("custom-audience-validator-installed")
+				if !k.CustomValidator && !k.AllowIDPInitiated && respOK && !confOK {
+					res.probe("custom-audience-validator:confirmation-level-only-mismatch")
 				}
 			}
+			if r.offAddr && !confOK && respOK {
+				res.probe("confirmation-for-another-endpoint-or-lapsed:confirmation-level-only-mismatch")
+			}
+			artifactOf := func(i int) string { return fmt.Sprintf("AAQAAartifact%d", i) }
 
 			var as *saml.Assertion
 			var err error
-			tr.respEl, tr.mode, tr.lazy = r.el, st.ArtIRT, nil
-			if st.Entry == "artifact" && strings.HasPrefix(r.spec.InResponseTo, "\x00") {
-				spec := r.spec
-				tr.lazy = func(resolveID string) *etree.Element {
-					s2 := c04WithResolveID(spec, resolveID)
-					return BuildResponseEl(&s2, time.Now())
+			var pan any
+			overlap := st.Overlap
+			if overlap != nil && (st.Entry != "artifact" || overlap.Resp >= len(resps)) {
+				overlap = nil
+			}
+			if overlap != nil {
+				// ---- two deliveries in flight at once: the first is started and runs until its resolution is at the resolver; then
+				// the second is started; then the resolver answers what has arrived, in the order the plan says
+				r2 := resps[overlap.Resp]
+				r2.n++
+				set2 := mkSet(overlap.Set, r2)
+				v2 := judge(r2, set2, true)
+				tr.resolve = func(artifact, resolveID string) *etree.Element {
+					for i, rr := range resps {
+						if artifactOf(i) == artifact {
+							if strings.HasPrefix(rr.spec.InResponseTo, "\x00") {
+								s2 := c04WithResolveID(rr.spec, resolveID)
+								return BuildResponseEl(&s2, time.Now())
+							}
+							return rr.el
+						}
+					}
+					return nil
 				}
-				res.probe("inner-response-echoes-resolve-id")
-			}
-			wire := elBytes(r.el.Copy())
-			if st.Respell {
-				wire = c04Respell(wire)
-				res.fire("respelt-with-character-references")
-			}
-			pan := guard(func() {
-				switch st.Entry {
-				case "xml":
-					as, err = spv.ParseXMLResponse(wire, passed, spv.AcsURL)
-				case "post":
-					form := url.Values{"SAMLResponse": {base64.StdEncoding.EncodeToString(wire)}}
-					hr := httptest.NewRequest("POST", spv.AcsURL.String(), strings.NewReader(form.Encode()))
-					hr.Header.Set("Content-Type", formCT)
-					_ = hr.ParseForm()
-					as, err = spv.ParseResponse(hr, passed)
-				case "artifact":
-					hr := httptest.NewRequest("GET", spv.AcsURL.String()+"?SAMLart=AAQAAartifact", nil)
-					_ = hr.ParseForm()
-					as, err = spv.ParseResponse(hr, passed)
-					tr.prevID = tr.seenID
+				type call struct {
+					artifact string
+					passed   []string
+					as       *saml.Assertion
+					err      error
+					pan      any
+					done     bool
 				}
-			})
-			observed := "REJECT"
-			if pan != nil {
-				observed = "PANIC"
-			} else if as != nil && err == nil {
-				observed = "ACCEPT"
+				ctx, cancel := context.WithCancel(context.Background())
+				run := func(c *call) {
+					c.pan = guard(func() {
+						hr := httptest.NewRequest("GET", spv.AcsURL.String()+"?SAMLart="+c.artifact, nil).WithContext(ctx)
+						_ = hr.ParseForm()
+						c.as, c.err = spv.ParseResponse(hr, c.passed)
+					})
+					c.done = true
+				}
+				c1 := &call{artifact: artifactOf(st.Resp), passed: passed}
+				c2 := &call{artifact: artifactOf(overlap.Resp), passed: append([]string(nil), set2...)}
+				tr.mu.Lock()
+				tr.gated, tr.arrivals = true, nil
+				tr.mu.Unlock()
+				go run(c1)
+				synctest.Wait()
+				go run(c2)
+				synctest.Wait()
+				tr.mu.Lock()
+				arrivals := append([]*rpArrival(nil), tr.arrivals...)
+				tr.mu.Unlock()
+				if len(arrivals) > 0 {
+					arrivals[0].mode = st.ArtIRT // the first resolution to arrive is the first delivery's
+				}
+				order := arrivals
+				if overlap.SecondFirst && len(arrivals) == 2 {
+					order = []*rpArrival{arrivals[1], arrivals[0]}
+				}
+				for _, a := range order {
+					close(a.release)
+					synctest.Wait()
+				}
+				stuck := !c1.done || !c2.done
+				cancel()
+				synctest.Wait()
+				tr.mu.Lock()
+				tr.gated = false
+				tr.mu.Unlock()
+				for _, a := range arrivals {
+					tr.prevID = a.id
+				}
+				res.fire("overlapping-deliveries")
+				if overlap.Resp == st.Resp {
+					res.probe("overlapping-deliveries-of-one-artifact")
+					if v.expect != v2.expect && v.expect != "DONT_CARE" && v2.expect != "DONT_CARE" {
+						res.probe("overlapping-deliveries-of-one-artifact:verdicts-differ")
+					}
+				}
+				res.Extra[fmt.Sprintf("resolutions-seen-for-two-overlapping-deliveries:%d", len(arrivals))]++
+				obs := func(c *call) string {
+					switch {
+					case c.pan != nil:
+						return "PANIC"
+					case !c.done:
+						return "STUCK"
+					case c.as != nil && c.err == nil:
+						return "ACCEPT"
+					}
+					return "REJECT"
+				}
+				res.logf("step %d deliver resp %d (flow %d retired=%v nth=%d) via artifact set=%s art=%s respOK=%v confOK=%v expect=%s observed=%s || overlapping: resp %d (flow %d) set=%s second-answered-first=%v respOK=%v confOK=%v expect=%s observed=%s",
+					si, st.Resp, r.flow, f.retired, r.n, st.Set, st.ArtIRT, respOK, confOK, expect, obs(c1), overlap.Resp, r2.flow, overlap.Set, overlap.SecondFirst, v2.respOK, v2.confOK, v2.expect, obs(c2))
+				if !v2.respOK || !v2.confOK {
+					res.Nontrivial = true
+				}
+				if stuck {
+					res.Excluded = "a delivery did not return (totality is C09's business)"
+					return res
+				}
+				if settle("overlapping", r2, overlap.Set, set2, "this", v2, c2.as, c2.err, c2.pan) {
+					return res
+				}
+				as, err, pan = c1.as, c1.err, c1.pan
+			} else {
+				tr.respEl, tr.mode, tr.lazy = r.el, st.ArtIRT, nil
+				if st.Entry == "artifact" && strings.HasPrefix(r.spec.InResponseTo, "\x00") {
+					spec := r.spec
+					tr.lazy = func(resolveID string) *etree.Element {
+						s2 := c04WithResolveID(spec, resolveID)
+						return BuildResponseEl(&s2, time.Now())
+					}
+					res.probe("inner-response-echoes-resolve-id")
+				}
+				wire := elBytes(r.el.Copy())
+				if st.Respell {
+					wire = c04Respell(wire)
+					res.fire("respelt-with-character-references")
+				}
+				pan = guard(func() {
+					switch st.Entry {
+					case "xml":
+						as, err = spv.ParseXMLResponse(wire, passed, spv.AcsURL)
+					case "post":
+						form := url.Values{"SAMLResponse": {base64.StdEncoding.EncodeToString(wire)}}
+						hr := httptest.NewRequest("POST", spv.AcsURL.String(), strings.NewReader(form.Encode()))
+						hr.Header.Set("Content-Type", formCT)
+						_ = hr.ParseForm()
+						as, err = spv.ParseResponse(hr, passed)
+					case "artifact":
+						hr := httptest.NewRequest("GET", spv.AcsURL.String()+"?SAMLart="+artifactOf(st.Resp), nil)
+						_ = hr.ParseForm()
+						as, err = spv.ParseResponse(hr, passed)
+						tr.prevID = tr.seenID
+					}
+				})
+				observed := "REJECT"
+				if pan != nil {
+					observed = "PANIC"
+				} else if as != nil && err == nil {
+					observed = "ACCEPT"
+				}
+				res.logf("step %d deliver resp %d (flow %d retired=%v nth=%d) via %s set=%s art=%s respOK=%v confOK=%v expect=%s observed=%s", si, st.Resp, r.flow, f.retired, r.n, st.Entry, st.Set, st.ArtIRT, respOK, confOK, expect, observed)
 			}
-			res.logf("step %d deliver resp %d (flow %d retired=%v nth=%d) via %s set=%s art=%s respOK=%v confOK=%v expect=%s observed=%s", si, st.Resp, r.flow, f.retired, r.n, st.Entry, st.Set, st.ArtIRT, respOK, confOK, expect, observed)
 			if r.n > 1 {
 				res.fire("duplicate")
 			}
@@ -490,34 +788,8 @@ func execReplay(t *testing.T, p *Plan) *Result {
 			if r.irt == "" && len(set) > 0 && !in("") {
 				res.probe("absent-irt-against-nonempty-set")
 			}
-			if pan != nil {
-				res.Excluded = "panic (reported under C09)"
+			if settle(st.Entry, r, st.Set, set, st.ArtIRT, v, as, err, pan) {
 				return res
-			}
-			switch expect {
-			case "DONT_CARE":
-				if r.noData {
-					res.dontcare("confirmation-without-data")
-				} else {
-					res.dontcare("custom-validator")
-				}
-			case "ACCEPT":
-				if as == nil {
-					res.violate(si, "valid-answer-rejected", "C04/valid-answer-rejected/"+st.Entry, expect, observed, privErr(err))
-					return res
-				}
-			case "REJECT":
-				if as != nil {
-					why := "response-irt"
-					switch {
-					case !artOK:
-						why = "artifact-correlation/" + st.ArtIRT
-					case respOK:
-						why = "confirmation-irt"
-					}
-					res.violate(si, "accepted-not-outstanding", "C04/accepted/"+why, expect, observed, fmt.Sprintf("outstanding set %s: resp irt %q conf irts %q set %q", st.Set, r.irt, r.confIRTs, set))
-					return res
-				}
 			}
 		}
 	}
@@ -547,7 +819,14 @@ func simplifyReplay(p *Plan) []*Plan {
 	var out []*Plan
 	for i, raw := range p.Steps {
 		st := decode[rpStep](raw)
-		if st.Kind == "deliver" && st.Entry != "xml" && st.ArtIRT == "this" {
+		if st.Kind == "deliver" && st.Overlap != nil {
+			c := p.Clone()
+			s2 := st
+			s2.Overlap = nil
+			c.Steps[i] = mustJSON(s2)
+			out = append(out, c)
+		}
+		if st.Kind == "deliver" && st.Entry != "xml" && st.ArtIRT == "this" && st.Overlap == nil {
 			c := p.Clone()
 			s2 := st
 			s2.Entry = "xml"
@@ -567,6 +846,12 @@ func simplifyReplay(p *Plan) []*Plan {
 					c := p.Clone()
 					s2 := st
 					s2.ConfIRTs = append(append([]string{}, st.ConfIRTs[:q]...), st.ConfIRTs[q+1:]...)
+					if len(st.ConfAddr) == len(st.ConfIRTs) {
+						s2.ConfAddr = append(append([]string{}, st.ConfAddr[:q]...), st.ConfAddr[q+1:]...)
+					}
+					if len(st.Methods) == len(st.ConfIRTs) {
+						s2.Methods = append(append([]string{}, st.Methods[:q]...), st.Methods[q+1:]...)
+					}
 					c.Steps[i] = mustJSON(s2)
 					out = append(out, c)
 				}
@@ -579,7 +864,7 @@ func simplifyReplay(p *Plan) []*Plan {
 func init() {
 	register(&Profile{
 		ID: "C04", Name: "replay", Level: "exploration",
-		Rule: "histories of 4-12 actions over {start flow (real SP request ID becomes outstanding), IdP answers flow k with InResponseTo at the Response and at each of 1-2 confirmations in {matching, another flow's, previous flow's, empty/absent, near-miss}, deliver response r (again) through xml/post/artifact with the caller's outstanding set in {live, empty, only this, only others, {\"\"}, {\"\"}+live, near-miss IDs, all ever issued}, retire flow k}; on the artifact path a simulated resolver sees the ArtifactResolve the SP sends and answers this / the previous / another / no / a near-miss request ID; AllowIDPInitiated and a custom request-ID validator are per-run knobs; non-trivial = some delivery must be refused; distinct = distinct abstract log; for the live set the library is handed the application's own long-lived slice (the oracle keeps its own copy of what was meant); the resolver may mint the inner response with the ArtifactResolve ID it has just seen; 0-2 confirmations; answers may be unsigned Responses without a Destination attribute and may carry holder-of-key / sender-vouches / unknown-method confirmations (each confirmation's InResponseTo counts whatever its method)",
+		Rule: "histories of 4-12 actions over {start flow (real SP request ID becomes outstanding), IdP answers flow k with InResponseTo at the Response and at each of 1-2 confirmations in {matching, another flow's, previous flow's, empty/absent, near-miss}, deliver response r (again) through xml/post/artifact with the caller's outstanding set in {live, empty, only this, only others, {\"\"}, {\"\"}+live, near-miss IDs, all ever issued}, retire flow k}; on the artifact path a simulated resolver sees the ArtifactResolve the SP sends and answers this / the previous / another / no / a near-miss request ID; AllowIDPInitiated and a custom request-ID validator are per-run knobs; non-trivial = some delivery must be refused; distinct = distinct abstract log; for the live set the library is handed the application's own long-lived slice (the oracle keeps its own copy of what was meant); the resolver may mint the inner response with the ArtifactResolve ID it has just seen; 0-2 confirmations; answers may be unsigned Responses without a Destination attribute and may carry holder-of-key / sender-vouches / unknown-method confirmations (each confirmation's InResponseTo counts whatever its method); a confirmation may be addressed to another endpoint of the deployment or have lapsed long ago (its InResponseTo counts all the same; acceptance of an assertion that carries such a confirmation is not demanded); the application may install its own audience validator answering to a second entity ID (knob), and the assertion may then name that one; a delivery through the artifact entry point may be overlapped by a second one (the same artifact or another, its own declared outstanding set) that starts while the first resolution is held at the resolver, the resolver answering in either order: each of the two is judged by the set its own caller declared",
 		Gen:  genReplay, Exec: execReplay, Simplify: simplifyReplay,
 		RunsQuick: 6000, RunsThorough: 600000,
 		Assumptions: []string{"with AllowIDPInitiated or a custom validator the statement imposes nothing on InResponseTo; only acceptance of otherwise valid responses (and artifact correlation) is asserted there", "an absent InResponseTo attribute and an empty one are the same thing on the wire"},
